@@ -133,6 +133,10 @@ def main():
             for f in r["failures"]:
                 if f["fn"] not in failed_fns_mine:
                     other_prop_failures.append("%s: %s (attributed to %s)" % (uname, f["obligation"], ",".join(f.get("props") or unit["properties"])))
+            # such functions are left out of BOTH counts for this property (Verus reports failed clauses one by one: the clauses of this
+            # property inside them did verify, but the function as a whole is not a discharged unit) and are listed in the evidence
+            others_only = failed_fns_all - failed_fns_mine
+            obligations -= len(others_only)
             discharged += n_fn - len(failed_fns_all) if not r["undecided"] else r.get("verified", 0)
             solver_ms += r.get("smt_ms") or 0
             functions += [dict(f, unit=uname, engine="verus") for f in r.get("functions", [])]
@@ -266,7 +270,7 @@ def main():
     with open(os.path.join(evdir, "%s.json" % prop), "w") as f:
         json.dump(ev, f, indent=1)
     print("%s: %d/%d obligations discharged%s, %d violations, %d known findings, %d undecided%s, %.1fs" % (prop, discharged, obligations, (" (+%d/%d bounded stand-ins passed)" % (bounded_ok, bounded_run)) if bounded_run else "", len(violations), len(known_hits), len(undecided),
-          (", %d failed obligation(s) belong to other properties" % len(set(other_prop_failures))) if other_prop_failures else "", wall))
+          (", %d function(s) left out: they fail obligations of other properties" % len(set(x.split(" (attributed")[0].split("/")[0] for x in other_prop_failures))) if other_prop_failures else "", wall))
     return rc
 
 
